@@ -50,6 +50,7 @@ type Contract struct {
 	Modifies []ast.Expr
 	ModGiven bool
 	ModAll   bool
+	ModHeap  bool // modifies allheap: every component except ghost (GH.*) and channel (CN.*, CL.*) state
 	Loops    map[int]*LoopCon
 	Safety   []string // property tags that the no-panic obligations of this function carry; nil = safety off
 	SafetyOn bool
@@ -109,9 +110,11 @@ type ContractTable struct {
 	Axioms  map[string][]Clause    // per package
 	Files   []string
 	Assumed []string // textual list of every trusted / iface / axiom / assume line (scan)
+	Static  []*StaticCheck
+	FuncType map[string]*Contract // named function type -> assumed contract of every value of that type
 }
 
-var kwRe = regexp.MustCompile(`^(func|trusted func|iface|pure func|hfunc|ufunc|axiom|requires|ensures|assumes|modifies|loop|invariant|safety|let|letold|noinline|params|lock|sortlen)\b`)
+var kwRe = regexp.MustCompile(`^(func|trusted func|iface|pure func|hfunc|ufunc|axiom|requires|ensures|assumes|modifies|loop|invariant|safety|let|letold|noinline|params|lock|sortlen|static|functype)\b`)
 var tagRe = regexp.MustCompile(`^\[([A-Za-z0-9_,.\- ]+)\]\s*`)
 
 type rawLine struct {
@@ -121,7 +124,7 @@ type rawLine struct {
 
 // loadContracts reads every *_verif.go contract file of the repository packages.
 func (p *Program) loadContracts() error {
-	ct := &ContractTable{ByFunc: map[*ssa.Function]*Contract{}, Iface: map[string]*Contract{}, Pure: map[string]*PureFunc{}, Axioms: map[string][]Clause{}}
+	ct := &ContractTable{ByFunc: map[*ssa.Function]*Contract{}, Iface: map[string]*Contract{}, Pure: map[string]*PureFunc{}, Axioms: map[string][]Clause{}, FuncType: map[string]*Contract{}}
 	p.Cons = ct
 	var firstErr error
 	packages.Visit(p.Pkgs, nil, func(pkg *packages.Package) {
@@ -219,6 +222,18 @@ func (p *Program) parseContractFile(pkg *packages.Package, file string) error {
 			cur = &Contract{Name: rest, PkgPath: pkg.PkgPath, Trusted: true, IfaceKey: rest, Loops: map[int]*LoopCon{}, Pos: st.pos}
 			ct.Iface[rest] = cur
 			ct.Assumed = append(ct.Assumed, fmt.Sprintf("%s: assumed interface contract %s", st.pos, rest))
+			curLoop = nil
+		case "static":
+			sc, err := parseStatic(pkg.PkgPath, rest, st.pos)
+			if err != nil {
+				return fail("%v", err)
+			}
+			ct.Static = append(ct.Static, sc)
+			cur, curLoop = nil, nil
+		case "functype":
+			cur = &Contract{Name: rest, PkgPath: pkg.PkgPath, Trusted: true, IfaceKey: rest, Loops: map[int]*LoopCon{}, Pos: st.pos}
+			ct.FuncType[pkg.PkgPath+"."+rest] = cur
+			ct.Assumed = append(ct.Assumed, fmt.Sprintf("%s: every function value of type %s is assumed to satisfy its functype contract", st.pos, rest))
 			curLoop = nil
 		case "params":
 			if cur == nil {
@@ -323,6 +338,14 @@ func (p *Program) parseContractFile(pkg *packages.Package, file string) error {
 					cur.ModAll = true
 				}
 				break
+			}
+			if strings.HasPrefix(rest, "allheap") {
+				// everything except ghost streams/counters (GH.*) and channel state (CN.*, CL.*)
+				cur.ModHeap = true
+				rest = strings.TrimSpace(strings.TrimPrefix(strings.TrimPrefix(rest, "allheap"), ","))
+				if rest == "" {
+					break
+				}
 			}
 			e, err := parser.ParseExpr("f(" + rest + ")")
 			if err != nil {
